@@ -6,9 +6,16 @@ import glob, json, os, shutil, subprocess, sys, time
 from concurrent.futures import ThreadPoolExecutor
 
 BASE = "8ba0a93"
+GLOB = "/tmp/seed-C*/SEED/*/"
+RENAME = {}
 args = sys.argv[1:]
-if args and args[0] == "--base":
-    BASE = args[1]; args = args[2:]
+while args and args[0].startswith("--"):
+    if args[0] == "--base":
+        BASE = args[1]; args = args[2:]
+    elif args[0] == "--round2":
+        GLOB = "/tmp/seed2-C*/SEED/*/"; RENAME = {"A": "C", "B": "D"}; args = args[1:]
+    else:
+        break
 
 def sh(cmd, cwd=None, timeout=900):
     r = subprocess.run(cmd, shell=True, cwd=cwd, capture_output=True, text=True, timeout=timeout)
@@ -22,8 +29,9 @@ def demo_cmd(d, tree):
     return None
 
 def confirm(seed_dir):
-    pid = seed_dir.split("/")[2].replace("seed-", "")
+    pid = seed_dir.split("/")[2].replace("seed2-", "").replace("seed-", "")
     x = os.path.basename(seed_dir)
+    x = RENAME.get(x, x)
     sid = "%s-%s" % (pid, x)
     if args and sid not in args and pid not in args:
         return None
@@ -74,7 +82,7 @@ def confirm(seed_dir):
         sh("git -C /repo worktree remove --force %s" % wt)
         shutil.rmtree(wt, ignore_errors=True)
 
-seeds = sorted(glob.glob("/tmp/seed-C*/SEED/*/"))
+seeds = sorted(glob.glob(GLOB))
 seeds = [s.rstrip("/") for s in seeds if os.path.exists(os.path.join(s, "patch.diff"))]
 with ThreadPoolExecutor(max_workers=3) as ex:
     for r in ex.map(confirm, seeds):
